@@ -11,6 +11,8 @@ import (
 	"github.com/ipld/go-ipld-prime/linking"
 	cidlink "github.com/ipld/go-ipld-prime/linking/cid"
 	"github.com/ipld/go-ipld-prime/node/basicnode"
+	"github.com/ipld/go-ipld-prime/node/bindnode"
+	"github.com/ipld/go-ipld-prime/schema"
 	"github.com/ipld/go-ipld-prime/storage/memstore"
 	"pgregory.net/rapid"
 
@@ -19,6 +21,7 @@ import (
 	"verif/lk"
 	"verif/nodes"
 	"verif/refcbor"
+	"verif/tschema"
 	"verif/val"
 )
 
@@ -35,7 +38,19 @@ type C05Op struct {
 	// ProtoOf > 0: store/compute with the prototype returned by Prototype() of the (ProtoOf-1)th stored link
 	// (when its codec is LP's), the usual way callers re-store a changed node; LP is then only the codec carrier.
 	ProtoOf int `json:"proto_of,omitempty"`
+	// Typed: the node is a schema-typed node (a bindnode struct with tuple representation) holding
+	// {"a": Ref, "b": Impl}: Store and ComputeLink treat it alike, and it loads back as that map
+	Typed bool `json:"typed,omitempty"`
 }
+
+var c05TypedProto = func() schema.TypedPrototype {
+	s := tschema.Schema{Types: []tschema.TypeSpec{{Name: "C05T", Kind: "struct", Repr: "tuple", Fields: []tschema.FieldSpec{{Name: "a", Type: "Int"}, {Name: "b", Type: "String"}}}}}
+	ts, err := s.Build()
+	if err != nil {
+		panic(err)
+	}
+	return bindnode.Prototype(nil, ts.TypeByName("C05T"))
+}()
 
 type C05Case struct {
 	Storage string  `json:"storage"` // memstore | cidmemory
@@ -152,8 +167,16 @@ func c05Check(c C05Case, rec *evid.Rec) error {
 					rec.Excluded("C04-integral-float")
 				}
 			}
+			typed := op.Typed && op.LP.Codec != lk.CodecRaw
+			if typed {
+				v = val.MkMap(val.Ent{K: "a", V: val.MkInt(int64(op.Ref))}, val.Ent{K: "b", V: val.MkString(op.Impl)})
+			}
 			permuted := val.Permute(v, op.Perm)
-			n, err := nodes.Build(permuted, nodes.NewProg(op.Prog), nodes.ProtoFor(nodes.Impl(op.Impl), v.K))
+			np := nodes.ProtoFor(nodes.Impl(op.Impl), v.K)
+			if typed {
+				permuted, np = v, c05TypedProto
+			}
+			n, err := nodes.Build(permuted, nodes.NewProg(op.Prog), np)
 			if err != nil {
 				return fmt.Errorf("%s: building the node failed: %w", where, err)
 			}
@@ -328,7 +351,7 @@ func permutedOrSorted(lp lk.LP, v, permuted val.V) val.V {
 
 var c05Part = evid.Part[C05Case]{
 	Prop: "C05", Name: "history", Quick: 2000, Thorough: 1000000,
-	Rule: "history of ≤25 store/compute/load/loadraw/loadplusraw/fill operations on one link system (default or private registry with CIDv0) and one storage (memstore, cidlink.Memory), values drawn per codec domain, link prototypes over CID version × 5 codecs × 10 hash functions × full/truncated(≥8 bytes)/-1 lengths; non-trivial = a store followed by a load of that link, and ≥2 prototypes or implementations in the history; distinct by the whole history",
+	Rule: "history of ≤25 store/compute/load/loadraw/loadplusraw/fill operations on one link system (default or private registry with CIDv0) and one storage (memstore, cidlink.Memory), values drawn per codec domain (some held by a schema-typed node: a bindnode struct with tuple representation), link prototypes over CID version × 5 codecs × 10 hash functions × full/truncated(≥8 bytes)/-1 lengths; non-trivial = a store followed by a load of that link, and ≥2 prototypes or implementations in the history; distinct by the whole history",
 	Gen: func(t *rapid.T) C05Case {
 		c := C05Case{Storage: rapid.SampledFrom([]string{"memstore", "cidmemory"}).Draw(t, "storage"), Private: rapid.Bool().Draw(t, "private")}
 		n := rapid.IntRange(1, 25).Draw(t, "nops")
@@ -357,6 +380,7 @@ var c05Part = evid.Part[C05Case]{
 					op.LP = drawLP(t, c.Private, 8)
 					op.V = drawCodecValue(t, op.LP.Codec)
 				}
+				op.Typed = rapid.IntRange(0, 5).Draw(t, "typed") == 0
 				op.Perm = rapid.SliceOfN(rapid.Byte(), 0, 8).Draw(t, "perm")
 				op.Prog = rapid.SliceOfN(rapid.Byte(), 0, 8).Draw(t, "prog")
 				pool = append(pool, op)
